@@ -327,7 +327,7 @@ func (e newTorrentEvent) apply(s *state) {
 		// asynchronously evicts the torrent, leaving the scheduler
 		// incorrectly thinking the torrent is still on disk.
 		// We fix this by removing the mem entry for the torrent.
-		s.removeTorrent(e.torrent.InfoHash(), nil)
+		s.removeTorrent(e.torrent.InfoHash(), ErrTorrentRemoved)
 		ok = false
 	}
 	if !ok {
@@ -358,9 +358,16 @@ type dispatcherCompleteEvent struct {
 func (e dispatcherCompleteEvent) apply(s *state) {
 	infoHash := e.dispatcher.InfoHash()
 
+	ctrl, ok := s.torrentControls[infoHash]
+	if ok && ctrl.dispatcher != e.dispatcher {
+		// The completed dispatcher was removed and the torrent was added again
+		// before this event was applied. The event says nothing about the new
+		// dispatcher.
+		s.log("dispatcher", e.dispatcher).Info("Ignoring completion of replaced dispatcher")
+		return
+	}
 	s.conns.ClearBlacklist(infoHash)
 	s.announceQueue.Eject(infoHash)
-	ctrl, ok := s.torrentControls[infoHash]
 	if !ok {
 		s.log("dispatcher", e.dispatcher).Error("Completed dispatcher not found")
 		return
@@ -368,6 +375,7 @@ func (e dispatcherCompleteEvent) apply(s *state) {
 	for _, errc := range ctrl.errors {
 		errc <- nil
 	}
+	ctrl.errors = nil
 	if ctrl.localRequest {
 		downloadTime := s.sched.clock.Now().Sub(ctrl.dispatcher.CreatedAt())
 		observability.EmitDownloadPerformance(s.sched.stats, observability.TORRENT_LEECH, ctrl.dispatcher.Length(), downloadTime)
@@ -431,8 +439,13 @@ func (e preemptionTickEvent) apply(s *state) {
 			s.sched.torrentlog.LeechTimeout(ctrl.dispatcher.Digest(), h)
 		}
 
-		if idleSeeder || idleLeecher {
-			s.log("hash", h, "inprogress", !ctrl.dispatcher.Complete()).Info("Removing idle torrent")
+		if idleSeeder {
+			// The blob is complete and stays in the cache, so any client whose
+			// completion event has not been applied yet did succeed.
+			s.log("hash", h, "inprogress", false).Info("Removing idle torrent")
+			s.removeTorrent(h, nil)
+		} else if idleLeecher {
+			s.log("hash", h, "inprogress", true).Info("Removing idle torrent")
 			s.removeTorrent(h, ErrTorrentTimeout)
 		}
 	}
